@@ -115,3 +115,71 @@ Proof. vm_compute. reflexivity. Qed.
 Example check_compile_ex :
   check_compile (SAwait, Or [And [Atom 0%N; Atom 1%N]; Atom 2%N], (true, [([0%N; 1%N], Some 2); ([2%N], None)])) = true.
 Proof. vm_compute. reflexivity. Qed.
+
+(* ---------- failure side / `when` with several cases (V2/GroupsFail.v) ---------- *)
+From NG Require Import V2.GroupsFail.
+
+(* an event step is (flow number, finishes?) : (i, true) = E<i> arrives and flow f<i> finishes,
+   (i, false) = StopFlow(flow_id="f<i>") : the running instances of f<i> fail *)
+Definition fmt_c (a : N) (e : N * bool) : bool := N.eqb a (fst e) && snd e.
+Definition ffl_c (a : N) (e : N * bool) : bool := N.eqb a (fst e) && negb (snd e).
+Definition frun_c : stmt -> list (formula N) -> list (N * bool) -> foutcome := frun fmt_c ffl_c.
+Definition fspec_c : list (formula N) -> list (N * bool) -> foutcome := fspec fmt_c ffl_c.
+
+(* X3 with the failure handlers: per case (or-fork emitted?, alternatives as in `skeleton`,
+   WaitForHeads number of the case's failure handler), and the WaitForHeads number at the else label *)
+Definition fskeleton := (list (bool * list (list N * option nat) * option nat) * option nat)%type.
+
+Definition fskel_of (p : fprog N) : fskeleton :=
+  (map (fun c => (cp_fork c, map skel_branch (cp_branches c), cp_fail_wait c)) (fp_cases p),
+   fp_else_wait p).
+
+Definition alts_eqb (x y : list (list N * option nat)) : bool :=
+  list_eqb (fun a b => list_eqb N.eqb (fst a) (fst b) && opt_nat_eqb (snd a) (snd b)) x y.
+
+Definition fskel_eqb (a b : fskeleton) : bool :=
+  list_eqb (fun x y : bool * list (list N * option nat) * option nat =>
+              Bool.eqb (fst (fst x)) (fst (fst y))
+              && alts_eqb (snd (fst x)) (snd (fst y))
+              && opt_nat_eqb (snd x) (snd y)) (fst a) (fst b)
+  && opt_nat_eqb (snd a) (snd b).
+
+Definition check_fcompile (c : stmt * list (formula N) * fskeleton) : bool :=
+  let '(st, fs, sk) := c in
+  match fcompile st fs with
+  | Some p => fskel_eqb (fskel_of p) sk
+  | None => false
+  end.
+
+(* what was observed on the interpreter *)
+Inductive fobs := ObsNever | ObsDone (n : nat) (case : nat) | ObsFail (n : nat).
+
+Definition fobs_ok (o : foutcome) (b : fobs) : bool :=
+  match o, b with
+  | FoNever, ObsNever => true
+  | FoDone n w, ObsDone m i => Nat.eqb n m && existsb (Nat.eqb i) w
+  | FoFail n, ObsFail m => Nat.eqb n m
+  | _, _ => false
+  end.
+
+Definition check_frun (c : stmt * list (formula N) * list (list (N * bool) * fobs)) : bool :=
+  let '(st, fs, obs) := c in
+  forallb (fun eo : list (N * bool) * fobs =>
+             let '(evs, o) := eo in
+             fobs_ok (frun_c st fs evs) o && fobs_ok (fspec_c fs evs) o) obs.
+
+Definition check_frun1 (c : stmt * list (formula N) * list (N * bool) * fobs) : bool :=
+  let '(st, fs, evs, o) := c in fobs_ok (frun_c st fs evs) o.
+
+Example check_frun_ex :
+  check_frun (SWhen, [Or [Atom 0%N; Atom 1%N]; Atom 2%N],
+              [([(0%N, false); (2%N, false); (1%N, true)], ObsDone 3 0);
+               ([(0%N, false); (1%N, false); (2%N, false)], ObsFail 3);
+               ([(2%N, true)], ObsDone 1 1);
+               ([(0%N, false); (2%N, false)], ObsNever)]) = true.
+Proof. vm_compute. reflexivity. Qed.
+
+Example check_fcompile_ex :
+  check_fcompile (SWhen, [Or [Atom 0%N; Atom 1%N]; Atom 2%N],
+                  ([(true, [([0%N], None); ([1%N], None)], Some 2); (true, [([2%N], None)], Some 1)], Some 2)) = true.
+Proof. vm_compute. reflexivity. Qed.
